@@ -18,6 +18,7 @@ import (
 	"os/exec"
 	"path/filepath"
 	"strings"
+	"sync"
 	"testing"
 
 	"pgregory.net/rapid"
@@ -118,8 +119,17 @@ func genC12(t *rapid.T) C12Case {
 func utf8Valid(s string) bool { return strings.ToValidUTF8(s, "\x00") == s }
 
 type c12Stats struct {
-	crashStates, inside, differing, continuations int
-	syscalls                                      map[string]int
+	crashStates, inside, differing, continuations, restarts int
+	syscalls                                                map[string]int
+}
+
+var pidNsOnce sync.Once
+var pidNsOK bool
+
+// pidNamespaces: can a child be given a process id namespace of its own here?
+func pidNamespaces() bool {
+	pidNsOnce.Do(func() { pidNsOK = exec.Command("unshare", "-pf", "true").Run() == nil })
+	return pidNsOK
 }
 
 func saverPath() string {
@@ -158,9 +168,15 @@ func checkC12(c C12Case) (o Outcome) {
 	if _, err := os.Stat(saverPath()); err != nil {
 		return infra("saver binary not built: %v", err)
 	}
-	cmd := exec.Command("strace", "-f", "-xx", "-s", "10000000", "-o", tracePath,
-		"-e", "trace=%file,write,pwrite64,pwritev,pwritev2,writev,close,ftruncate,fsync,fdatasync,fallocate,dup,dup2,dup3,fcntl,sendfile,copy_file_range,splice",
-		saverPath(), jobPath)
+	// (in a process id namespace of its own where the sandbox allows it: like a service in a
+	// container, the saver and whatever is started after the crash have the same process id)
+	saverCmd := []string{saverPath(), jobPath}
+	if pidNamespaces() {
+		saverCmd = append([]string{"unshare", "-pf"}, saverCmd...)
+	}
+	cmd := exec.Command("strace", append([]string{"-f", "-xx", "-s", "10000000", "-o", tracePath,
+		"-e", "trace=%file,write,pwrite64,pwritev,pwritev2,writev,close,ftruncate,fsync,fdatasync,fallocate,dup,dup2,dup3,fcntl,sendfile,copy_file_range,splice"},
+		saverCmd...)...)
 	cmd.Env = append(os.Environ(), "TMPDIR="+tmpdir)
 	var stdout, stderr bytes.Buffer
 	cmd.Stdout, cmd.Stderr = &stdout, &stderr
@@ -224,6 +240,78 @@ func checkC12(c C12Case) (o Outcome) {
 		}
 		return sb.String()
 	}
+	// restartFrom: a new process (same process id as the saver where possible) is started on
+	// the directory: it serves as many requests of ANOTHER session as the crashed process had
+	// served in all, then the crashed session twice. Hard links of the crash state are kept.
+	restartFrom := func(materialise func(root string) error, s, k int) string {
+		root := workDir()
+		defer os.RemoveAll(root)
+		store := filepath.Join(root, "store")
+		if err := materialise(store); err != nil {
+			return "cannot materialise: " + err.Error()
+		}
+		sessions := append([]string{}, c.Sessions...)
+		other := (s + 1) % len(sessions)
+		if other == s {
+			sessions = append(sessions, "zeta")
+			other = len(sessions) - 1
+		}
+		var reqs []map[string]any
+		var oin []string
+		for kk := k + 1; kk < len(c.Requests); kk++ {
+			if c.Requests[kk].Session == other {
+				oin = append(oin, string(c.Requests[kk].Input))
+			}
+		}
+		for n := 0; n <= k; n++ {
+			in := ""
+			if n < len(oin) {
+				in = oin[n]
+			}
+			reqs = append(reqs, map[string]any{"session": other, "input": BS(in)})
+		}
+		for kk, n := k+1, 0; n < 2; n++ {
+			in := ""
+			for ; kk < len(c.Requests); kk++ {
+				if c.Requests[kk].Session == s {
+					in = string(c.Requests[kk].Input)
+					kk++
+					break
+				}
+			}
+			reqs = append(reqs, map[string]any{"session": s, "input": BS(in)})
+		}
+		jb, _ := json.Marshal(map[string]any{"app": c.App, "dir": store, "sessions": sessions, "requests": reqs})
+		jp := filepath.Join(root, "job.json")
+		os.WriteFile(jp, jb, 0600)
+		args := []string{saverPath(), jp}
+		if pidNamespaces() {
+			args = append([]string{"unshare", "-pf"}, args...)
+		}
+		cmd := exec.Command(args[0], args[1:]...)
+		cmd.Env = append(os.Environ(), "TMPDIR="+tmpdir)
+		var out bytes.Buffer
+		cmd.Stdout = &out
+		if err := cmd.Run(); err != nil {
+			return "restart failed: " + err.Error()
+		}
+		// the answers only (not the records the saver reports)
+		var sb strings.Builder
+		dec := json.NewDecoder(&out)
+		for {
+			var r struct {
+				N       int    `json:"n"`
+				Visible string `json:"visible"`
+				Panic   string `json:"panic"`
+			}
+			if dec.Decode(&r) != nil {
+				break
+			}
+			fmt.Fprintf(&sb, "%d:%s panic=%s | ", r.N, r.Visible, r.Panic)
+		}
+		return sb.String()
+	}
+	restarts := 0
 	i := 0
 	for i < len(ops) {
 		op := ops[i]
@@ -342,6 +430,40 @@ func checkC12(c C12Case) (o Outcome) {
 						want = w
 					}
 				}
+				// the same from a process started anew, which first serves another session: for
+				// crash states in which a record shares its file with another name, and a sample
+				// of the others
+				restarts++
+				if state.Aliased() || restarts%16 == 0 {
+					st.restarts++
+					gotR := restartFrom(func(root string) error { return state.Materialise(dir, root) }, s, k)
+					wantR := ""
+					for _, v := range valid {
+						clean := map[string][]byte{P: v}
+						for os2 := range c.Sessions {
+							if b, e := pre.Get(recordPath(os2)); e && os2 != s {
+								clean[recordPath(os2)] = b
+							}
+						}
+						wantR = restartFrom(func(root string) error {
+							for p, b := range clean {
+								rel, _ := filepath.Rel(dir, p)
+								dst := filepath.Join(root, rel)
+								os.MkdirAll(filepath.Dir(dst), 0700)
+								if err := os.WriteFile(dst, b, 0600); err != nil {
+									return err
+								}
+							}
+							return os.MkdirAll(root, 0700)
+						}, s, k)
+						if wantR == gotR {
+							break
+						}
+					}
+					if gotR != wantR {
+						return viol("restart-differs", "request %d (session %s): after a crash %s a new process that first serves another session and then this one answers %s, from complete records alone it answers %s (files: %v, shared file: %v)", k, c.Sessions[s], where, gotR, wantR, names(state.Files(), dir), state.Aliased())
+					}
+				}
 				if got != want {
 					return viol("continuation-differs", "request %d (session %s): after a crash %s a fresh engine answers the next input %q with %s, from the clean record it answers %s (stray files: %v)", k, c.Sessions[s], where, nextInput, got, want, names(state.Files(), dir))
 				}
@@ -397,6 +519,7 @@ func checkC12(c C12Case) (o Outcome) {
 	c12Totals.inside += st.inside
 	c12Totals.differing += st.differing
 	c12Totals.continuations += st.continuations
+	c12Totals.restarts += st.restarts
 	return
 }
 
@@ -429,7 +552,7 @@ func TestC12(t *testing.T) {
 	n := pick(25, 150)
 	setChecks(n)
 	defer func() {
-		stats.note("crash states checked: %d (strictly inside a save: %d, of those with an old record that differs from the new: %d); continuations executed: %d; crash model: process death at syscall boundaries and inside writes; power loss / reordering below the syscall layer out of scope", c12Totals.crashStates, c12Totals.inside, c12Totals.differing, c12Totals.continuations)
+		stats.note("crash states checked: %d (strictly inside a save: %d, of those with an old record that differs from the new: %d); continuations executed: %d (of those by a newly started process that serves another session first: %d); crash model: process death at syscall boundaries and inside writes; power loss / reordering below the syscall layer out of scope", c12Totals.crashStates, c12Totals.inside, c12Totals.differing, c12Totals.continuations, c12Totals.restarts)
 		if t.Failed() && infraFailure == "" {
 			fmt.Printf("VERIF-VIOLATION property=C12 sub=trace\n")
 		}
